@@ -153,7 +153,8 @@ func picked4(kd *kind) []op {
 	return out
 }
 
-// picked222: three threads with two colliding ops each (thorough tier; 10^5..10^6 schedules each).
+// picked222: three threads with two colliding ops each (thorough tier; 10^5..10^6 schedules each),
+// for the four stores with refusal rules or compound loads.
 var picked222 = map[string][]string{
 	"action": {
 		"SPV:0,0,0;SPC:0,0,0|SPV:0,1,1;SPC:0,1,0|LA:0;LA:0",
@@ -164,15 +165,6 @@ var picked222 = map[string][]string{
 	},
 	"finalization": {
 		"SF:0,0,0,0;LF:0|SF:0,1,1,1;LF:0|SF:0,0,1,0;LF:0",
-	},
-	"committed": {
-		"SCH:0,0,0;LCH:0|SCH:0,1,1;LCH:0|SCH:0,0,1;LCH:0",
-	},
-	"mirror": {
-		"SET:0,0,0,0;GET|SET:1,1,1,1;GET|SET:0,1,0,1;GET",
-	},
-	"statemachine": {
-		"SET:0,0;GET|SET:1,1;GET|SET:0,2;GET",
 	},
 	"validator": {
 		"SPK:0;LV:0,0|SVP:0;LV:0,0|SPK:0;LPK:0",
